@@ -40,25 +40,59 @@ theorem ok_snd {ε α β γ : Type} {a a' : α} {b b' : β} {c c' : γ}
     (h : (Except.ok (a, b, c) : Except ε (α × β × γ)) = .ok (a', b', c')) : b = b' := by
   cases h; rfl
 
-theorem setMem_key {c c1 : Ctr} {m : Nat} {cons cons1 : Int} (h : c.setMem m cons = (c1, cons1)) : key c1 = key c := by
-  have := congrArg Prod.fst h
-  simp only [Ctr.setMem] at this
-  rw [← this]; rfl
+theorem sameButPos_key {c c' : Ctr} (h : c.SameButPos c') : key c' = key c := by
+  unfold Ctr.SameButPos at h; rw [h]; rfl
+
+/-- everything `runAt` can do to a container, in one statement -/
+theorem runAt_spec {w w' : Store} {c c' : Ctr} {cons cons' : Int} {r : Nat} {last : Bool} {m : Nat}
+    (h : runAt w c cons r last m = .ok (w', c', cons')) :
+    key c' = key c ∧ c'.ops = c.ops ∧ c'.err = c.err ∧ c'.suspLeft = c.suspLeft ∧ c'.elapsed = c.elapsed ∧ c'.prio = c.prio ∧
+    cons' = cons + ((c'.mem : Int) - (c.mem : Int)) ∧
+    (c'.completed = true → c.completed = false → c'.mem = 0) ∧ (c.completed = true → c'.completed = true) ∧
+    (c'.frozen = false → c'.mem ≤ c'.ram) ∧ (c'.frozen = true → c.frozen = false → c'.mem > c'.ram) ∧
+    (c'.curOpIdx = c.curOpIdx ∨ c'.curOpIdx = c.curOpIdx + 1) ∧
+    (c.completed = false → c'.frozen = false → (c'.canSuspend = true ↔ (c'.curOpIdx = c.curOpIdx + 1 ∧ c'.completed = false))) := by
+  unfold runAt at h
+  split at h
+  · rename_i hgt
+    cases h
+    refine ⟨rfl, rfl, rfl, rfl, rfl, rfl, rfl, ?_, fun h => h, ?_, fun _ _ => hgt, Or.inl rfl, ?_⟩
+    · intro h1 h2; rw [h1] at h2; cases h2
+    · intro hf; cases hf
+    · intro _ hf; cases hf
+  · rename_i hle
+    split at h
+    · split at h
+      · cases h
+      · split at h
+        · cases h
+          refine ⟨rfl, rfl, rfl, rfl, rfl, rfl, by simp only []; omega, fun _ _ => rfl, fun _ => rfl, fun _ => Nat.zero_le _, ?_, Or.inr rfl, ?_⟩
+          · intro hf hf'; simp only [] at hf; rw [hf'] at hf; cases hf
+          · intro _ _; simp
+        · cases h
+          refine ⟨rfl, rfl, rfl, rfl, rfl, rfl, rfl, ?_, fun h => h, fun _ => by simp only []; omega, ?_, Or.inr rfl, ?_⟩
+          · intro h1 h2; simp only [] at h1; rw [h2] at h1; cases h1
+          · intro hf hf'; simp only [] at hf; rw [hf'] at hf; cases hf
+          · intro hc _; simp only [true_iff]; exact ⟨trivial, hc⟩
+    · cases h
+      refine ⟨rfl, rfl, rfl, rfl, rfl, rfl, rfl, ?_, fun h => h, fun _ => by simp only []; omega, ?_, Or.inl rfl, ?_⟩
+      · intro h1 h2; simp only [] at h1; rw [h2] at h1; cases h1
+      · intro hf hf'; simp only [] at hf; rw [hf'] at hf; cases hf
+      · intro _ _; simp
 
 theorem advance_key (cfg : Cfg) (w : Store) (c : Ctr) (cons : Int) (w' : Store) (c' : Ctr) (cons' : Int)
     (h : advance cfg w c cons = .ok (w', c', cons')) : key c' = key c := by
-  fun_induction advance cfg w c cons
-  case case1 => rw [← ok_snd h]
-  case case2 => cases h
-  case case3 => cases h
-  case case4 ih => exact ih h
-  case case5 ih => exact ih h
-  case case6 => rename_i hm _; rw [← ok_snd h, ← setMem_key hm]; rfl
-  case case7 => cases h
-  case case8 => rename_i hm _ _ _ _ _ _ _ _ _ hm4; rw [← ok_snd h, setMem_key hm4, ← setMem_key hm]; rfl
-  case case9 => rename_i hm _ _ _ _ _ _ _; rw [← ok_snd h, ← setMem_key hm]; rfl
-  case case10 => rename_i hm _ _ _; rw [← ok_snd h, ← setMem_key hm]; rfl
-  case case11 ih => exact ih h
+  unfold advance at h
+  split at h
+  · rw [← ok_snd h]
+  · split at h
+    · cases h
+    · rename_i w1 c1 hs
+      have h1 := sameButPos_key (seek_spec _ _ _ _ _ hs).2.1
+      unfold runTick at h
+      split at h
+      · rw [(runAt_spec h).1, h1]
+      · cases h
 
 theorem tick_key {cfg : Cfg} {w w' : Store} {c c' : Ctr} {cons cons' : Int}
     (h : c.tick cfg w cons = .ok (w', c', cons')) : key c' = key c := by
